@@ -160,6 +160,15 @@ func (w *W) effectFree(n ast.Node) bool {
 		switch y := m.(type) {
 		case *ast.ReturnStmt, *ast.BranchStmt:
 			free = false
+		case *ast.CallExpr:
+			// a method called on (part of) the coded value may change it
+			if sel, ok := y.Fun.(*ast.SelectorExpr); ok {
+				if s := w.g.pkg.Info.Selections[sel]; s != nil && s.Kind() == types.MethodVal {
+					if _, isPl := w.evalL(sel.X).(*Place); isPl {
+						free = false
+					}
+				}
+			}
 		case *ast.AssignStmt:
 			for _, l := range y.Lhs {
 				if _, ok := l.(*ast.Ident); !ok {
@@ -303,6 +312,9 @@ func (w *W) countIn(e ast.Expr) *ArrCtx {
 // promote: an int32 read into a temporary that turns out to be used as an element count (DLI32)
 func (w *W) promote(p *Pending, o types.Object) *ArrCtx {
 	n := p.node
+	if !w.countLike[o] {
+		return nil
+	}
 	if n.Kind != "prim" || n.P != "PI32" || n.Bound || n.Place != nil || p.conv != "" {
 		return nil
 	}
@@ -346,6 +358,14 @@ func (w *W) derivedOnly(x *ast.IfStmt) bool {
 		switch y := m.(type) {
 		case *ast.ReturnStmt, *ast.BranchStmt, *ast.ForStmt, *ast.RangeStmt:
 			ok = false
+		case *ast.CallExpr:
+			if sel, isSel := y.Fun.(*ast.SelectorExpr); isSel {
+				if s := w.g.pkg.Info.Selections[sel]; s != nil && s.Kind() == types.MethodVal {
+					if _, isPl := w.evalL(sel.X).(*Place); isPl {
+						ok = false // a method of the coded value: unknown effect
+					}
+				}
+			}
 		case *ast.AssignStmt:
 			for _, l := range y.Lhs {
 				targets = append(targets, l)
@@ -357,7 +377,8 @@ func (w *W) derivedOnly(x *ast.IfStmt) bool {
 		return false
 	}
 	for _, t := range targets {
-		if pl, isPl := w.eval(t).(*Place); isPl {
+		if pl, isPl := w.evalL(t).(*Place); isPl {
+			delete(w.known, pl.key())
 			w.emit(&Node{Kind: "derived", Place: pl, Pos: w.g.pkg.pos(x)})
 		}
 	}
@@ -445,6 +466,7 @@ func (w *W) assign(l ast.Expr, v SVal, at ast.Node) {
 		if cur, isPlace := w.env[o].(*Place); !isPlace || cur.obj.what == "var" || cur.obj.what == "new" || cur.obj.what == "coll" {
 			if mk, ok := v.(MakeV); ok {
 				pl := &Place{obj: w.newObj("coll", mk.typ), typ: mk.typ}
+				pl.obj.name = id.Name
 				w.env[o] = pl
 				w.noteMake(pl, mk)
 				return
@@ -457,13 +479,9 @@ func (w *W) assign(l ast.Expr, v SVal, at ast.Node) {
 			return
 		}
 	}
-	lv := w.eval(l)
+	lv := w.evalL(l)
 	pl, ok := lv.(*Place)
 	if !ok {
-		if c, isConc := lv.(Conc); isConc && c.fromVer {
-			// re-assignment of a field whose value is already known (f.Version = version twice)
-			return
-		}
 		if w.effectFree(at) {
 			return
 		}
@@ -485,6 +503,7 @@ func (w *W) assign(l ast.Expr, v SVal, at ast.Node) {
 		}
 	case Conc:
 		w.known[pl.key()] = r.v
+		w.knownVer[pl.key()] = r.fromVer
 		if w.side == "dec" {
 			k := "setconst"
 			if r.fromVer {
